@@ -865,64 +865,3 @@ impl DhtHandler {
     }
 //@end
 }
-
-// ================= action/bootstrap.rs: the two message-level functions of the bootstrap task =================
-// (the task itself -- select!, FuturesUnordered, watch channels -- is outside both verifiers; these two functions are what it uses to
-//  build its queries and to turn a received message into routing-table offers)
-//@begin type src/action/bootstrap.rs - struct TableBootstrapInner drop=routers,id_generator,starting_nodes,start_rx,state_tx
-pub struct TableBootstrapInner {
-    pub this_node_id: NodeId,
-    pub ip_version: IpVersion,
-    pub table: Arc<Mutex<RoutingTable>>,
-    pub socket: Arc<Socket>,
-}
-//@end
-impl TableBootstrapInner {
-//@begin fn src/action/bootstrap.rs impl:TableBootstrapInner handle_message props=C12
-    pub fn handle_message(&self, message: Message, from: SocketAddr, Tracked(tr): Tracked<&mut Trace>) -> (r: bool)
-        ensures
-            // C12 (bootstrap path): only a response can offer nodes to the table; a query or error arriving here adds nothing
-            !(message.body is Response) ==> !r && final(tr).ev == old(tr).ev, // @C12.bootstrap_queries_and_errors_add_nothing
-            message.body is Response ==> r && final(tr).ev == old(tr).ev.push(Ev::TableAdd(NodeHandle { id: message.body->Response_0.id, addr: from },
-                (if sa_is_v4(self.socket.local_addr) { message.body->Response_0.nodes_v4@ } else { message.body->Response_0.nodes_v6@ }))), // @C12.bootstrap_responder_good_named_nodes_hearsay
-    {
-        match message.body {
-            MessageBody::Response(rsp) => {
-                let node = Node::as_good(rsp.id, from);
-
-                let nodes = match self.socket.ip_version() {
-                    IpVersion::V4 => &rsp.nodes_v4,
-                    IpVersion::V6 => &rsp.nodes_v6,
-                };
-
-                self.table.lock().unwrap().add_nodes(node, nodes, Tracked(tr));
-
-                true
-            }
-            _ => false,
-        }
-    }
-//@end
-
-//@begin fn src/action/bootstrap.rs impl:TableBootstrapInner make_find_node_request props=C19,C17
-    pub fn make_find_node_request(
-        transaction_id: TransactionID,
-        id: NodeId,
-        target: NodeId,
-    ) -> (m: Message)
-        ensures m.transaction_id@ == transaction_id.bytes@, m.transaction_id@.len() == 8, // @C19.bootstrap_queries_carry_8_byte_ids
-            m.body matches MessageBody::Request(Request::FindNode(f)) && f.id == id && f.target == target && f.want is None,
-            blen(m) <= 1500, // @C17.bootstrap_queries_fit_1500_bytes
-    {
-        proof { lemma_consts(); }
-        Message {
-            transaction_id: transaction_id.as_ref().to_vec(),
-            body: MessageBody::Request(Request::FindNode(FindNodeRequest {
-                id,
-                target,
-                want: None, // we want only contacts of the same address family we have.
-            })),
-        }
-    }
-//@end
-}
